@@ -149,6 +149,73 @@ def list_body(ctx, case):
             ctx.check_close(f"list:{label}:restricted-entry:force-bias", case, f"force bias, restricted entry ({label})", fb, f_r, 1e-9, fscale_r)
 
 
+# ---- (b') FCI vector -> determinant list ------------------------------------------------------------------------------
+@st.composite
+def fcistate_case(draw, tier="quick"):
+    import math
+
+    norb = draw(st.integers(2, 5))
+    na = draw(st.integers(1, norb))
+    nb = draw(st.integers(1, na))
+    shape = (math.comb(norb, na), math.comb(norb, nb))
+    ci = draw(gens.real(shape))
+    # some exactly vanishing coefficients, and distinct magnitudes (ties at a cut would make "the k largest" ambiguous)
+    mask = draw(hnp_mask(shape))
+    ci = np.where(mask, ci, 0.0) + 1e-3 * np.arange(ci.size).reshape(shape) * (np.asarray(mask, float))
+    return {"norb": norb, "nelec": [na, nb], "ci": ci, "ndets": draw(st.sampled_from([None, None, 1, 2, 3, 5, 1000])), "tol": draw(st.sampled_from([1e-12, 1e-4, 0.3]))}
+
+
+def hnp_mask(shape):
+    import hypothesis.extra.numpy as hnp
+
+    return hnp.arrays(np.bool_, shape, elements=st.sampled_from([True, True, True, False]), fill=st.nothing())
+
+
+def fcistate_body(ctx, case):
+    from pyscf import fci
+    from pyscf.fci import cistring
+
+    norb, nelec = int(case["norb"]), (int(case["nelec"][0]), int(case["nelec"][1]))
+    ci = np.asarray(case["ci"], float)
+    tol = float(case["tol"])
+    cis = fci.direct_spin1.FCISolver()
+    cis.ci, cis.norb, cis.nelec = ci, norb, nelec
+    import math
+
+    beyond = math.comb(norb, nelec[0]) < math.comb(norb, nelec[1])
+    ctx.case(case, nontrivial=ci.size >= 2 and np.count_nonzero(np.abs(ci) > tol) >= 2, classes=[f"fci-state:norb={norb}", "fci-state:ndets=" + ("None" if case["ndets"] is None else "given"), "fci-state:" + ("fewer-alpha-than-beta-strings" if beyond else "alpha-strings>=beta-strings")])
+    if np.count_nonzero(np.abs(ci) > tol) == 0:
+        # nothing above the tolerance: pyscf's large_ci then hands back its single largest entry - not a case the statement speaks about
+        ctx.count("fci-state:no-coefficient-above-tolerance")
+        return
+    try:
+        state = pyscf_interface.get_fci_state(cis, ndets=case["ndets"], tol=tol)
+    except Exception as e:
+        ctx.fail(f"fci-state:raised-{type(e).__name__}", case, f"{type(e).__name__}: {e}")
+        return
+    # independent decoding of pyscf's string addressing
+    sa, sb = cistring.make_strings(range(norb), nelec[0]), cistring.make_strings(range(norb), nelec[1])
+    occ = lambda string: tuple(1 if (int(string) >> p) & 1 else 0 for p in range(norb))
+    want = {}
+    for ia in range(ci.shape[0]):
+        for ib in range(ci.shape[1]):
+            if abs(ci[ia, ib]) > tol:
+                want[(occ(sa[ia]), occ(sb[ib]))] = float(ci[ia, ib])
+    k = len(want) if case["ndets"] is None else min(int(case["ndets"]), len(want))
+    keep = dict(sorted(want.items(), key=lambda kv: -abs(kv[1]))[:k])
+    got = {(tuple(d[0]), tuple(d[1])): float(c) for d, c in state.items()}
+    if set(got) != set(keep):
+        ctx.fail("fci-state:determinant-set" + (":fewer-alpha-than-beta-strings" if beyond else ""), case, f"{len(got)} determinants returned, {len(keep)} expected (|c| > {tol:g}, ndets={case['ndets']}); missing {sorted(set(keep) - set(got))[:3]}, extra {sorted(set(got) - set(keep))[:3]}")
+        return
+    bad = [d for d in keep if got[d] != keep[d]]
+    if bad:
+        ctx.fail("fci-state:coefficient", case, f"determinant {bad[0]}: coefficient {got[bad[0]]!r}, CI vector entry {keep[bad[0]]!r}")
+        return
+    first = next(iter(state))
+    if k and abs(float(state[first])) < max(abs(v) for v in keep.values()) * (1 - 1e-12):
+        ctx.fail("fci-state:not-sorted", case, "the first determinant of the list (the reference) is not the one with the largest coefficient")
+
+
 # ---- (b) determinant files -----------------------------------------------------------------------------------
 def write_dets(path, items, norb, ndets_header=None):
     with open(path, "wb") as f:
@@ -378,6 +445,7 @@ def driver_body(ctx, case):
 SUBCHECKS = [
     SubCheck("list_semantics", body=list_body, strategy=list_case, examples={"quick": 10, "thorough": 150}, shards={"quick": 8, "thorough": 12}, shrink=False),
     SubCheck("determinant_files", body=file_body, strategy=file_case, examples={"quick": 150, "thorough": 2000}, shards={"quick": 1, "thorough": 2}),
+    SubCheck("fci_vector_to_determinant_list", body=fcistate_body, strategy=fcistate_case, examples={"quick": 200, "thorough": 3000}, shards={"quick": 1, "thorough": 2}),
     SubCheck("exact_trial_local_energy", body=eig_body, strategy=eig_case, examples={"quick": 12, "thorough": 150}, shards={"quick": 4, "thorough": 6}, shrink=False),
     SubCheck("fci_molecules", body=mol_body, strategy=mol_case, examples={"quick": 3, "thorough": 30}, shards={"quick": 2, "thorough": 4}, shrink=False),
     SubCheck("exact_trial_driver_runs", body=driver_body, strategy=driver_case, examples={"quick": 2, "thorough": 12}, shards={"quick": 2, "thorough": 6}, shrink=False),
